@@ -393,10 +393,69 @@ def _membership_guarded(guards, key_text: str, cont_text: str) -> bool:
     return False
 
 
+def bounded_strings(node, fn, name: str, mod=None):
+    """The finite set of constants the local ``name`` is known to equal whenever ``node`` is evaluated, or None when it is not bounded:
+    a true guard ``name in (<constants>)`` / ``name in TABLE`` (module-level literal) / ``name == c`` / a disjunction of those, or an
+    enclosing ``match name: case c1 | c2:`` arm (``name`` not rebound in between)."""
+
+    def literal(e):
+        if isinstance(e, ast.Name) and mod is not None:
+            vals = mod.assigns(e.id)
+            e = vals[0] if len(vals) == 1 else None
+        if isinstance(e, ast.Call) and isinstance(e.func, ast.Name) and e.func.id in ("frozenset", "set", "tuple", "list") and len(e.args) == 1 and not e.keywords:
+            e = e.args[0]
+        if isinstance(e, (ast.List, ast.Tuple, ast.Set)) and e.elts and all(isinstance(x, ast.Constant) for x in e.elts):
+            return [x.value for x in e.elts]
+        if isinstance(e, ast.Dict) and e.keys and all(isinstance(x, ast.Constant) for x in e.keys):
+            return [x.value for x in e.keys]
+        return None
+
+    def of_test(e):
+        if isinstance(e, ast.BoolOp) and isinstance(e.op, ast.Or):
+            parts = [of_test(v) for v in e.values]
+            return None if any(p is None for p in parts) else [x for p in parts for x in p]
+        if isinstance(e, ast.Compare) and len(e.ops) == 1:
+            l, r = e.left, e.comparators[0]
+            if isinstance(e.ops[0], ast.In) and isinstance(l, ast.Name) and l.id == name:
+                return literal(r)
+            if isinstance(e.ops[0], ast.Eq):
+                for a, b in ((l, r), (r, l)):
+                    if isinstance(a, ast.Name) and a.id == name and isinstance(b, ast.Constant):
+                        return [b.value]
+        return None
+
+    def of_pattern(p):
+        if isinstance(p, ast.MatchValue) and isinstance(p.value, ast.Constant):
+            return [p.value.value]
+        if isinstance(p, ast.MatchOr):
+            parts = [of_pattern(x) for x in p.patterns]
+            return None if any(x is None for x in parts) else [x for q in parts for x in q]
+        if isinstance(p, ast.MatchAs) and p.pattern is not None:
+            return of_pattern(p.pattern)
+        return None
+
+    best = None
+    for e, val in guards_at(node, fn):
+        got = of_test(e) if val else None
+        if got is not None and (best is None or len(got) < len(best)):
+            best = got
+    child, p = node, getattr(node, "_parent", None)
+    while p is not None and child is not fn:
+        if isinstance(p, ast.match_case) and any(child is s for s in p.body):
+            m = getattr(p, "_parent", None)
+            if isinstance(m, ast.Match) and isinstance(m.subject, ast.Name) and m.subject.id == name:
+                got = of_pattern(p.pattern)
+                rebound = any(wname == name and _end(m.subject) <= wpos < _pos(node) for wpos, wname in _writes(fn))
+                if got is not None and not rebound and (best is None or len(got) < len(best)):
+                    best = got
+        child, p = p, getattr(p, "_parent", None)
+    return best
+
+
 # ---------------------------------------------------------------------------------------------------
 # the engine
 
-_RANK = {None: 0, "V": 1, "A": 2}
+_RANK ={None: 0, "V": 1, "A": 2}
 
 
 def join(*ks):
@@ -488,6 +547,7 @@ class Config:
     safe_methods: frozenset = frozenset()
     skip_explicit: object = None  # f(frame, raise_node) -> reason | None   (named suppressions)
     strict: bool = True
+    local_types: object = None  # f(frame) -> {local name | attribute chain: (rel, class qual)}: types the rule knows beyond the annotations (annotations win)
     taint_through_mutation: bool = False  # opt-in: `buf.extend(x)` / `lst.append(x)` with untrusted x makes the container untrusted (kind V)
 
 
@@ -678,6 +738,81 @@ class MayRaise:
                 return vals[-1] if vals else None
         return None
 
+    def _const_with_module(self, mod, expr):
+        """(defining Module, value node) of a module-level constant spelled ``NAME`` / imported ``NAME`` / ``module.NAME`` that is bound
+        exactly once in its module; None otherwise (classes, functions, rebinding, locals are not constants)."""
+        if isinstance(expr, ast.Name):
+            if expr.id in mod.imports:
+                target = mod.imports[expr.id].split(".")
+                m = self.model.module_by_dotted(".".join(target[:-1])) if len(target) > 1 else None
+                name = target[-1]
+            else:
+                m, name = mod, expr.id
+        elif isinstance(expr, ast.Attribute):
+            ch = attr_chain(expr.value)
+            if not ch or ch.split(".")[0] not in mod.imports:
+                return None
+            target = mod.imports[ch.split(".")[0]].split(".") + ch.split(".")[1:]
+            m, name = self.model.module_by_dotted(".".join(target)), expr.attr
+        else:
+            return None
+        if m is None or m.get(name) is not None:
+            return None
+        vals = m.assigns(name)
+        if len(vals) != 1:
+            return None
+        if any(isinstance(n, ast.Global) and name in n.names for n in ast.walk(m.tree)):
+            return None
+        return m, vals[0]
+
+    def handler_names(self, mod, expr, _depth: int = 0) -> list[str]:
+        """Canonical exception class names denoted by the type expression of an ``except`` clause / ``suppress(..)`` argument: a class, a
+        tuple of those (also ``(*A, B)`` and ``A + B``), or a module-level constant (of this or an imported repository module) bound once
+        to such an expression - ``except _MALFORMED_DATA_ERRORS as e`` catches exactly what the tuple it names lists."""
+        if _depth > 6:
+            raise AnalysisError(f"{mod.rel}: exception tuple constants nested too deeply: {norm(expr)[:60]}")
+        if isinstance(expr, ast.Tuple):
+            out = []
+            for e in expr.elts:
+                out.extend(self.handler_names(mod, e.value if isinstance(e, ast.Starred) else e, _depth + 1))
+            return out
+        if isinstance(expr, ast.BinOp) and isinstance(expr.op, ast.Add):
+            return self.handler_names(mod, expr.left, _depth + 1) + self.handler_names(mod, expr.right, _depth + 1)
+        if isinstance(expr, (ast.Name, ast.Attribute)):
+            r = self.model.resolve_name(mod, expr)
+            if r is None or not isinstance(r[1], ast.ClassDef):
+                c = self._const_with_module(mod, expr)
+                if c is not None and isinstance(c[1], (ast.Tuple, ast.BinOp, ast.Name, ast.Attribute)):
+                    return self.handler_names(c[0], c[1], _depth + 1)
+        return [self.h.canon(mod, expr)]
+
+    def returned_exception_classes(self, mod, fn) -> list[str]:
+        """Exception classes an *exception factory* can return (``raise make_error(x)``): every ``return`` of ``fn`` must return a freshly
+        constructed exception ``Cls(...)`` (directly, through a local bound once to it, or ``A(..) if c else B(..)``)."""
+        out = []
+
+        def of(e, depth=0):
+            if isinstance(e, ast.IfExp):
+                return of(e.body, depth) + of(e.orelse, depth)
+            if isinstance(e, ast.Name) and depth < 3:
+                defs = [n for n in _own_nodes(fn) if isinstance(n, (ast.Assign, ast.AnnAssign)) and n.value is not None
+                        and any(isinstance(t, ast.Name) and t.id == e.id for t in (n.targets if isinstance(n, ast.Assign) else [n.target]))]
+                if len(defs) == 1:
+                    return of(defs[0].value, depth + 1)
+            if isinstance(e, ast.Call) and attr_chain(e.func):
+                return [self.h.canon(mod, e)]
+            raise AnalysisError(f"mayraise: {mod.rel}::{fn._qual} is raised as an exception factory but returns `{norm(e)[:60]}`")
+
+        rets = [n for n in _own_nodes(fn) if isinstance(n, ast.Return)]
+        if not rets or any(r.value is None for r in rets) or _has_yield(fn):
+            raise AnalysisError(f"mayraise: {mod.rel}::{fn._qual} is raised as an exception factory but does not return an exception on every path")
+        for r in rets:
+            out.extend(of(r.value))
+        for name in out:
+            if not self.h.isa(name, "BaseException"):
+                raise AnalysisError(f"mayraise: {mod.rel}::{fn._qual} returns {name}, which is not an exception class")
+        return out
+
     def resolved_dotted(self, mod, func_expr) -> str:
         ch = attr_chain(func_expr)
         if not ch:
@@ -786,6 +921,11 @@ class _Frame:
         for n in _own_nodes(fn):
             if isinstance(n, ast.AnnAssign) and isinstance(n.target, ast.Name):
                 self._note_type(n.target.id, n.annotation)
+        if eng.cfg.local_types is not None:
+            for name, (rel, qual) in (eng.cfg.local_types(self) or {}).items():
+                c = eng.model.module(rel).get(qual)
+                if name not in self.types and isinstance(c, ast.ClassDef):
+                    self.types[name] = (eng.model.module(rel), c)
 
     # ---- driving ----------------------------------------------------------------------------------
     def settle(self, stmts):
@@ -1029,6 +1169,17 @@ class _Frame:
                     raise AnalysisError(f"mayraise: `raise {exc.id}` with an unmodelled definition in {self.mod.rel}::{self.fn._qual}")
                 exc = defs[0].value
         if isinstance(exc, ast.Call):
+            t = self.resolve_call(exc) if isinstance(exc.func, (ast.Name, ast.Attribute)) else None
+            if t is not None and t[0] == "fn" and t[2].name not in ("__init__", "__post_init__", "__new__") and not _is_cm(t[2]):
+                # `raise make_error(x)`: the helper runs (its own raisers count) and what it returns is raised
+                self.call(exc)
+                if s.cause is not None and not isinstance(s.cause, (ast.Name, ast.Constant)):
+                    self.ev(s.cause)
+                for name in eng.returned_exception_classes(t[1], t[2]):
+                    if self.collecting:
+                        eng.sites += 1
+                        self.cur.add(Esc(name, self.mod.rel, self.fn._qual, norm(s)[:90], f"explicit raise of what {t[2]._qual}() returns", s.lineno))
+                return
             for a in exc.args:
                 self.ev(a)
             for kw in exc.keywords:
@@ -1047,10 +1198,8 @@ class _Frame:
         for h in s.handlers:
             if h.type is None:
                 names = ["BaseException"]
-            elif isinstance(h.type, ast.Tuple):
-                names = [eng.h.canon(self.mod, e) for e in h.type.elts]
             else:
-                names = [eng.h.canon(self.mod, h.type)]
+                names = eng.handler_names(self.mod, h.type)  # classes, tuples, and module-level constants holding them
             handlers.append((h, names, set()))
         for e in body:
             for h, names, caught in handlers:
@@ -1103,7 +1252,7 @@ class _Frame:
                     self.bind(item.optional_vars, None)
                 return
             if norm(ce.func) in ("contextlib.suppress", "suppress"):
-                names = [self.eng.h.canon(self.mod, a) for a in ce.args]
+                names = [n for a in ce.args for n in self.eng.handler_names(self.mod, a.value if isinstance(a, ast.Starred) else a)]
                 got = body_thunk()
                 self.cur |= {e for e in got if not any(self.eng.h.isa(e.exc, n) for n in names)}
                 return
@@ -1298,6 +1447,9 @@ class _Frame:
             elif e.value.id in self.types:
                 cls = self.types[e.value.id]
             recv_kind = self.env.get(e.value.id)
+        elif isinstance(e.value, ast.Attribute) and attr_chain(e.value) in self.types:  # receiver chain typed by the rule (Config.local_types)
+            cls = self.types[attr_chain(e.value)]
+            recv_kind = self.env.get(attr_chain(e.value))
         if cls is None:
             return None
         pk = (cls[0].rel, cls[1]._qual, e.attr, store)
@@ -1322,7 +1474,7 @@ class _Frame:
         env2 = {}
         if recv_kind:
             env2["self"] = recv_kind
-        if e.value.id == "self":
+        if isinstance(e.value, ast.Name) and e.value.id == "self":
             env2.update({k: v for k, v in self.env.items() if k == "self" or k.startswith("self.")})
         if store:
             params = [a.arg for a in f.args.args]
@@ -1589,6 +1741,12 @@ class _Frame:
                 r = model.method(tm.rel, tc._qual, f.attr)
                 if r is not None:
                     return mk(r[0], r[1], self._method_kind(r[1]) != "static", self.env.get(v.id))
+            vch = attr_chain(v) if isinstance(v, ast.Attribute) else None
+            if vch and vch in self.types and not self.env.get(vch) == "A":  # receiver chain typed by the rule (Config.local_types)
+                tm, tc = self.types[vch]
+                r = model.method(tm.rel, tc._qual, f.attr)
+                if r is not None:
+                    return mk(r[0], r[1], self._method_kind(r[1]) != "static", self.env.get(vch))
             ch = attr_chain(f)
             if ch and not self._is_local(ch.split(".")[0]):
                 r = model.resolve_name(self.mod, f)
@@ -1601,6 +1759,59 @@ class _Frame:
                         kind = self._method_kind(fn_)
                         return mk(r[0], fn_, kind == "class")
                     return mk(r[0], fn_, False)
+        return None
+
+    def _table_entries(self, name, _depth=0):
+        """Value nodes (Names) of the module-level dict display bound to ``name``; ``**OTHER`` / ``A | B`` of further such tables are expanded.
+        None when ``name`` is not such a table."""
+        vals = self.mod.assigns(name)
+        if not vals or _depth > 4:
+            return None
+
+        def of(e):
+            if isinstance(e, ast.Dict) and e.values:
+                out = []
+                for k, v in zip(e.keys, e.values):
+                    if k is None:
+                        sub = self._table_entries(v.id, _depth + 1) if isinstance(v, ast.Name) and not self._is_local(v.id) else None
+                        if sub is None:
+                            return None
+                        out.extend(sub)
+                    elif isinstance(v, ast.Name):
+                        out.append(v)
+                    else:
+                        return None
+                return out
+            if isinstance(e, ast.BinOp) and isinstance(e.op, ast.BitOr):
+                a, b = of(e.left), of(e.right)
+                return None if a is None or b is None else a + b
+            if isinstance(e, ast.Name) and not self._is_local(e.id):
+                return self._table_entries(e.id, _depth + 1)
+            return None
+
+        return of(vals[-1])
+
+    def _dispatch_table(self, f):
+        """Name of the module-level table when the callee expression ``f`` is ``TABLE[key]`` or a local bound exactly once (in this function)
+        to ``TABLE[key]`` / ``TABLE.get(key[, default])``; None otherwise."""
+
+        def table_of(e):
+            if isinstance(e, ast.Subscript) and isinstance(e.value, ast.Name) and not self._is_local(e.value.id):
+                return e.value.id
+            if isinstance(e, ast.Call) and isinstance(e.func, ast.Attribute) and e.func.attr == "get" and isinstance(e.func.value, ast.Name) \
+                    and not self._is_local(e.func.value.id) and 1 <= len(e.args) <= 2:
+                return e.func.value.id
+            return None
+
+        if isinstance(f, ast.Subscript):
+            return table_of(f)
+        if isinstance(f, ast.Name) and self._is_local(f.id) and self._nested_def(f.id) is None:
+            binds = [n for n in _own_nodes(self.fn) if isinstance(n, (ast.Assign, ast.AnnAssign, ast.NamedExpr)) and getattr(n, "value", None) is not None
+                     and any(isinstance(t, ast.Name) and t.id == f.id for t in (n.targets if isinstance(n, ast.Assign) else [n.target]))]
+            stores = [n for n in _own_nodes(self.fn) if isinstance(n, ast.Name) and n.id == f.id and isinstance(n.ctx, ast.Store)]
+            params = {a.arg for a in self.fn.args.posonlyargs + self.fn.args.args + self.fn.args.kwonlyargs}
+            if len(binds) == 1 and len(stores) == 1 and f.id not in params:
+                return table_of(binds[0].value)
         return None
 
     def call(self, call):
@@ -1634,15 +1845,16 @@ class _Frame:
                     f2 = eng.model.func(rel, qual)
                     skip = isinstance(getattr(f2, "_parent", None), ast.ClassDef) and self._method_kind(f2) != "static" and isinstance(f, ast.Attribute)
                     targets.append((m, f2, self.bind_params(f2, pos, kw, star, dstar, skip, recv_kind)))
-        if targets is None and isinstance(f, ast.Subscript) and isinstance(f.value, ast.Name) and not self._is_local(f.value.id):
-            # dispatch through a module-level literal table of functions: TABLE[key](...)
-            vals = self.mod.assigns(f.value.id)
-            if vals and isinstance(vals[-1], ast.Dict) and vals[-1].values and all(isinstance(v, ast.Name) for v in vals[-1].values):
+        tbl = self._dispatch_table(f) if targets is None else None
+        if tbl is not None:
+            # dispatch through a module-level literal table of functions: TABLE[key](...), or a local bound once to TABLE[key] / TABLE.get(key)
+            entries = self._table_entries(tbl)
+            if entries:
                 targets = []
-                for v in vals[-1].values:
+                for v in entries:
                     r = eng.model.resolve_name(self.mod, v)
                     if r is None or not isinstance(r[1], (ast.FunctionDef, ast.AsyncFunctionDef)):
-                        raise AnalysisError(f"mayraise: table {f.value.id} holds a non-function {v.id}")
+                        raise AnalysisError(f"mayraise: table {tbl} holds a non-function {v.id}")
                     targets.append((r[0], r[1], self.bind_params(r[1], pos, kw, star, dstar, False)))
         if targets is None:
             # struct
@@ -1811,12 +2023,14 @@ class _Frame:
             return join(*pos)
         # setattr(obj, k, v): property setters of an annotated local, k ranging over a guarding literal list
         obj, k, v = call.args
-        if isinstance(obj, ast.Name) and obj.id in self.types and isinstance(k, ast.Name):
+        if ((isinstance(obj, ast.Name) and obj.id in self.types) or (isinstance(obj, ast.Attribute) and attr_chain(obj) in self.types)) and isinstance(k, ast.Name):
             names = None
             for e, val in guards_at(call, self.fn):
                 if val and isinstance(e, ast.Compare) and len(e.ops) == 1 and isinstance(e.ops[0], ast.In) and norm(e.left) == k.id \
                         and isinstance(e.comparators[0], (ast.List, ast.Tuple, ast.Set)):
                     names = [x.value for x in e.comparators[0].elts if isinstance(x, ast.Constant)]
+            if names is None:
+                names = bounded_strings(call, self.fn, k.id, self.mod)  # `k == "a" or k == "b"`, `match k: case "a" | "b"`, `k in TABLE`
             if names is None:
                 raise AnalysisError(f"mayraise: setattr with an unbounded attribute name: {norm(call)}")
             for n in names:
